@@ -188,7 +188,7 @@ fn judge_a(rep: &Reporter, prefix: &str, method: &str, ct: &Option<Vec<String>>,
 pub fn check(rep: &Reporter) {
 	let thorough = rep.tier.thorough();
 	rep.set_rule(
-		"(A) 16 HTTP method tokens (the nine standard ones, FOO, and the near-POST tokens post / Post / pOsT / POSTS / POS / get) × content-type values (the six accepted spellings in every letter-case variant — all 2^k for k ≤ 15 letters, 4 styles per word for longer ones —, 22 near misses, missing header, duplicated header) with a fixed valid call as body, and (A') every method × {none, the accepted spellings in 3 letter-case styles, every near miss, 4 duplicate pairs} as raw HTTP/1.1 requests through Server::start over loopback TCP; (A'') the same methods × 6 paths with ProxyGetRequestLayer(/health) installed: only GET /health is redirected; (B) 19 bodies (calls, notification, batches, invalid, truncated, non-JSON, 0/1/126/127/128 leading blanks) × splits into consecutive chunks (quick: all splits into ≤3 chunks, thinned for bodies > 90 bytes, and the 4-chunk splits touching an end or on a stride; thorough: all splits into ≤4 chunks of bodies ≤ 64 bytes and into 5 chunks of bodies ≤ 40 bytes) × {no extra chunk, an empty chunk or a blank-only chunk inserted at every boundary incl. front and back} × Content-Length {absent, exact}; differential oracle: (status, body, invocation log) equals the single-frame request of the same bytes; the 1- and 2-chunk splits are repeated on a service whose max_request_body_size equals the body length. Distinct by (method, content-type) resp. (body, frame sequence, content-length); all non-trivial.",
+		"(A) 16 HTTP method tokens (the nine standard ones, FOO, and the near-POST tokens post / Post / pOsT / POSTS / POS / get) × content-type values (the six accepted spellings in every letter-case variant — all 2^k for k ≤ 15 letters, 4 styles per word for longer ones —, 22 near misses, missing header, duplicated header) with a fixed valid call as body, and (A') every method × {none, the accepted spellings in 3 letter-case styles, every near miss, 4 duplicate pairs} as raw HTTP/1.1 requests through Server::start over loopback TCP; (A-h2) the same requests (without CONNECT) over HTTP/2 with prior knowledge; (A'') the same methods × 6 paths with ProxyGetRequestLayer(/health) installed: only GET /health is redirected; (B) 19 bodies (calls, notification, batches, invalid, truncated, non-JSON, 0/1/126/127/128 leading blanks) × splits into consecutive chunks (quick: all splits into ≤3 chunks, thinned for bodies > 90 bytes, and the 4-chunk splits touching an end or on a stride; thorough: all splits into ≤4 chunks of bodies ≤ 64 bytes and into 5 chunks of bodies ≤ 40 bytes) × {no extra chunk, an empty chunk or a blank-only chunk inserted at every boundary incl. front and back} × Content-Length {absent, exact}; differential oracle: (status, body, invocation log) equals the single-frame request of the same bytes; the 1- and 2-chunk splits are repeated on a service whose max_request_body_size equals the body length; (B-h2) every 2-chunk split and a stride of the 3-chunk splits as HTTP/2 DATA frames against Server::start, with and without content-length, same differential. Distinct by (method, content-type) resp. (body, frame sequence, content-length); all non-trivial.",
 	);
 	rep.assume("the tower service Server uses per connection is called directly; hyper's own framing is not in the loop");
 	let cfg = || srv::cfg_builder().build();
@@ -327,6 +327,64 @@ pub fn check(rep: &Reporter) {
 				local.case_unique(&format!("tcp:{class}"));
 			},
 		);
+
+		// ---- (A-h2) the same requests over HTTP/2 (prior knowledge) against Server::start: `:method` pseudo-header
+		//      instead of a request line (CONNECT is a tunnel request in HTTP/2 and is left to the HTTP/1.1 leg)
+		let h2_methods: Vec<&str> = METHODS.iter().copied().filter(|m| *m != "CONNECT").collect();
+		let ncase = cts2.len() * h2_methods.len();
+		rep.extra("h2_leg_cases", json!(ncase));
+		par_for(
+			rep,
+			ncase,
+			16,
+			|| {
+				let rt = srv::rt();
+				let log: srv::InvLog = Default::default();
+				let started = {
+					let _e = rt.enter();
+					let listener = std::net::TcpListener::bind("127.0.0.1:0").expect("bind loopback");
+					listener.set_nonblocking(true).unwrap();
+					let addr = listener.local_addr().unwrap();
+					let server = jsonrpsee_server::Server::builder().set_config(cfg()).build_from_tcp(listener).expect("server");
+					(addr, server.start(srv::std_module(log.clone())))
+				};
+				(rt, log, started, None::<srv::H2Conn>)
+			},
+			|i, (rt, log, (addr, _handle), conn), local| {
+				let ct = &cts2[i / h2_methods.len()];
+				let method = h2_methods[i % h2_methods.len()];
+				log.lock().unwrap().clear();
+				let mut out = None;
+				for _attempt in 0..3 {
+					if conn.is_none() {
+						*conn = rt.block_on(srv::h2_connect(*addr)).ok();
+					}
+					let Some(c) = conn.as_mut() else { continue };
+					let mut b = http::Request::builder().method(method).uri(format!("http://{addr}/"));
+					if let Some(vals) = ct {
+						for v in vals {
+							b = b.header("content-type", v.as_str());
+						}
+					}
+					let Ok(req) = b.body(FramesBody::single(CALL)) else { return };
+					match rt.block_on(async { tokio::time::timeout(std::time::Duration::from_secs(10), c.request(req)).await }) {
+						Ok(Ok(o)) => {
+							out = Some(o);
+							break;
+						}
+						_ => *conn = None,
+					}
+				}
+				let Some(out) = out else {
+					rep.machinery_error(format!("SRV-TCP HTTP/2 leg: no response for {method} {ct:?}"));
+					return;
+				};
+				let handlers = log.lock().unwrap().clone();
+				// HTTP/2 carries field values verbatim (no optional whitespace is stripped on the way): judged as sent
+				let (class, _case) = judge_a(rep, "h2:", method, ct, out.status, &out.body, &handlers);
+				local.case_unique(&format!("h2:{class}"));
+			},
+		);
 	}
 
 	// ---- (A'') with the optional ProxyGetRequestLayer installed (GET /health is redirected to a method by design):
@@ -376,6 +434,106 @@ pub fn check(rep: &Reporter) {
 			}
 		}
 		rep.merge(local);
+	}
+
+	// ---- (B-h2) chunking over HTTP/2: the body as DATA frames, split at every position (and every pair of positions on a
+	//      stride), with and without a content-length header; differential against the single-frame request
+	{
+		let bodies = bodies();
+		let mut items: Vec<(usize, Vec<usize>)> = Vec::new();
+		for (bi, b) in bodies.iter().enumerate() {
+			let n = b.len();
+			for a in 1..n {
+				items.push((bi, vec![a]));
+				for c in a + 1..n {
+					if (a + 2 * c) % (if thorough { 3 } else { 11 }) == 0 || a == 1 || c == n - 1 {
+						items.push((bi, vec![a, c]));
+					}
+				}
+			}
+		}
+		rep.extra("h2_split_work_items", json!(items.len()));
+		par_for(
+			rep,
+			items.len(),
+			64,
+			|| {
+				let rt = srv::rt();
+				let log: srv::InvLog = Default::default();
+				let started = {
+					let _e = rt.enter();
+					let listener = std::net::TcpListener::bind("127.0.0.1:0").expect("bind loopback");
+					listener.set_nonblocking(true).unwrap();
+					let addr = listener.local_addr().unwrap();
+					let server = jsonrpsee_server::Server::builder().set_config(cfg()).build_from_tcp(listener).expect("server");
+					(addr, server.start(srv::std_module(log.clone())))
+				};
+				(rt, log, started, None::<srv::H2Conn>, std::collections::HashMap::<usize, (HttpOut, Vec<String>)>::new())
+			},
+			|i, (rt, log, (addr, _handle), conn, base), local| {
+				let (bi, cuts) = &items[i];
+				let body = &bodies[*bi];
+				let addr = *addr;
+				let send = |frames: Vec<Vec<u8>>, with_cl: bool, conn: &mut Option<srv::H2Conn>| -> Option<(HttpOut, Vec<String>)> {
+					log.lock().unwrap().clear();
+					for _attempt in 0..3 {
+						if conn.is_none() {
+							*conn = rt.block_on(srv::h2_connect(addr)).ok();
+						}
+						let Some(c) = conn.as_mut() else { continue };
+						let total: usize = frames.iter().map(|f| f.len()).sum();
+						let mut b = http::Request::builder().method("POST").uri(format!("http://{addr}/")).header("content-type", "application/json");
+						if with_cl {
+							b = b.header("content-length", total.to_string());
+						}
+						let fb = if with_cl { FramesBody::new(frames.clone()) } else { FramesBody::unsized_frames(frames.clone()) };
+						let Ok(req) = b.body(fb) else { return None };
+						match rt.block_on(async { tokio::time::timeout(std::time::Duration::from_secs(10), c.request(req)).await }) {
+							Ok(Ok(o)) => return Some((o, log.lock().unwrap().clone())),
+							_ => *conn = None,
+						}
+					}
+					None
+				};
+				if !base.contains_key(bi) {
+					let Some(b) = send(vec![body.clone()], false, conn) else {
+						rep.machinery_error("HTTP/2 chunking leg: no response for a baseline request".into());
+						return;
+					};
+					base.insert(*bi, b);
+				}
+				let (bout, blog) = base.get(bi).unwrap().clone();
+				let mut frames: Vec<Vec<u8>> = Vec::new();
+				let mut prev = 0;
+				for c in cuts.iter().chain(std::iter::once(&body.len())) {
+					frames.push(body[prev..*c].to_vec());
+					prev = *c;
+				}
+				for with_cl in [false, true] {
+					let Some((out, hl)) = send(frames.clone(), with_cl, conn) else {
+						rep.machinery_error("HTTP/2 chunking leg: no response".into());
+						continue;
+					};
+					let same = out == bout && hl == blog;
+					if !same {
+						rep.violation(
+							&format!("h2:chunking:plain-split{}", if with_cl { ":with-content-length" } else { "" }),
+							&format!(
+								"HTTP/2: body {:?} sent as DATA frames {:?}: status {} body {:?} handlers {hl:?}; as one frame: status {} body {:?} handlers {blog:?}",
+								String::from_utf8_lossy(body),
+								frames.iter().map(|x| String::from_utf8_lossy(x).to_string()).collect::<Vec<_>>(),
+								out.status,
+								String::from_utf8_lossy(&out.body),
+								bout.status,
+								String::from_utf8_lossy(&bout.body)
+							),
+							json!({"engine":"ENUM","part":"B-h2","body": String::from_utf8_lossy(body), "frames": frames.iter().map(|x| String::from_utf8_lossy(x).to_string()).collect::<Vec<_>>(), "content_length": with_cl}),
+						);
+					}
+					local.case_unique(if same { "h2:same-as-single-frame" } else { "h2:differs" });
+				}
+			},
+		);
 	}
 
 	// ---- (B) chunking differential
